@@ -758,8 +758,11 @@ def run_objlist(case):
         if st == "sf":
             if sizes:
                 return [Vo("spurious_solve_failure", "randomize", where + ": object list: sizes %s are possible (tags %s, k=%d)" % (sizes, [e.tag for e in cur], k))], info
-            if case.get("size"):
-                return [], info          # (contents of a random-size list after a failed call are not specified)
+            # a failed call leaves the list exposing the objects it held before (also a random-size one)
+            got_f = list(top.l)
+            if len(got_f) != len(cur) or len(top.l) != len(cur) or any(a is not b for a, b in zip(got_f, cur)):
+                return [Vo("edit_on_wrong_list", "after a failed call the object list does not expose the objects it held before", 
+                           where + ": exposes tags %s, held %s" % ([getattr(x, "tag", "?") for x in got_f], [x.tag for x in cur]))], info
             continue
         info["returned"] += 1
         # the second list: any size of its range that it can hold; first objects kept
